@@ -284,7 +284,7 @@ impl Property for C16 {
         }
         match tier {
             Tier::Quick => Budget { release: 60_000, dbg: 0, workers: 6 },
-            Tier::Thorough => Budget { release: 3_000_000, dbg: 0, workers: 16 },
+            Tier::Thorough => Budget { release: 8_000_000, dbg: 0, workers: 16 },
         }
     }
     fn driver_phase(&self, _ctx: &DriverCtx) -> Result<Vec<(String, J)>, (String, String)> {
